@@ -62,3 +62,16 @@ def volume(ctx, threads, calls):
         vf.violation(ctx, f'{f[1]} value {f[2][:24]}.. was produced twice (calls {f[4]} and {f[6]}) in a run of {n} encapsulations', {'mode': f'volume {threads} {calls}', 'config': 'default', 'kind': f[1], 'value': f[2], 'output': '\n'.join(dup[:5])})
     elif fails or not tot or n != threads * calls:
         vf.violation(ctx, 'volume run of encapsulations: ' + (fails[0] if fails else 'incomplete output'), {'mode': f'volume {threads} {calls}', 'config': 'default', 'output': '\n'.join(fails[:5])})
+
+
+def poison(ctx, n):
+    """a thread dies while holding the generator's guard; the instance may refuse later calls, what it still hands out is fresh"""
+    if getattr(ctx, 'conc_dead', False): return
+    vals, dup, fails, done = run(ctx, ['poison', n], timeout=300)
+    tot = sum(len(v) for v in vals.values()); ctx.evaluations += tot + 10 * n
+    ctx.ob('freshness', f'concd poison {n}: on two instances a thread panics while holding the generator guard, then {5 * n} calls of five kinds each: refused or fresh - {tot} values handed out afterwards, pairwise distinct ({" ".join(d.split("(")[-1].rstrip(")") for d in done)[:160]})', not dup and not fails and len(done) == 2, (str(dup)[:300] + ' ' + ' '.join(fails[:2]))[:500])
+    if dup:
+        k = sorted(dup)[0]
+        vf.violation(ctx, f'after a thread died while holding the generator guard, {k} value {dup[k][0][:24]}.. was handed out twice (values #{dup[k][1]} and #{dup[k][2]})', {'mode': f'poison {n}', 'config': 'default', 'kind': k, 'value': dup[k][0]})
+    elif fails or len(done) != 2:
+        vf.violation(ctx, 'poisoned-generator run: ' + (fails[0] if fails else 'incomplete output'), {'mode': f'poison {n}', 'config': 'default'})
